@@ -524,6 +524,12 @@ __thread htp_cfg_t *hx_shared_txcfg = NULL;
 static int cb_request_line(htp_tx_t *tx) { COST_PAUSE;
     runctx *x = cur; if (!x) return HTP_OK;
     htp_cfg_t *tc = hx_shared_txcfg ? hx_shared_txcfg : x->txcfg;
+    if (x->c->cfg[CF_TX_CFG] == 2 && tx != NULL) {
+        /* the other documented recipe: a private copy of the connection's (possibly shared) configuration, made while parsing and
+         * owned by the transaction (released by the library with it).  Copying reads the original; it must not write it. */
+        htp_cfg_t *cp = htp_config_copy(x->connp->cfg);
+        if (cp != NULL) htp_tx_set_config(tx, cp, HTP_CONFIG_PRIVATE);
+    } else
     if (tc != NULL && tx != NULL) htp_tx_set_config(tx, tc, HTP_CONFIG_SHARED);
     on_tx_event(x, HK_REQUEST_LINE, tx, 0, RK_LINE, 1);
     return scripted_rc(x, HK_REQUEST_LINE);
@@ -1138,7 +1144,7 @@ int hx_run(const hx_case *c, hx_result *r) {
         x->cfg = htp_config_copy(x->cfg_base);
         if (x->cfg == NULL) goto done;
     } else x->cfg = x->cfg_base;
-    if (c->cfg[CF_TX_CFG] && hx_shared_txcfg == NULL) { x->txcfg = build_cfg(x); if (x->txcfg == NULL) goto done; }
+    if (c->cfg[CF_TX_CFG] == 1 && hx_shared_txcfg == NULL) { x->txcfg = build_cfg(x); if (x->txcfg == NULL) goto done; }
     YIELD();
     COST_API(x->connp = htp_connp_create(x->cfg));
     if (x->connp == NULL) goto done;
